@@ -88,9 +88,9 @@ Json/Spec.vos Json/Spec.vok Json/Spec.required_vos: Json/Spec.v Base/GoInt.vos G
 Json/ValidProofs.vo Json/ValidProofs.glob Json/ValidProofs.v.beautified Json/ValidProofs.required_vo: Json/ValidProofs.v Base/GoInt.vo Base/Lanes.vo Base/LanesProofs.vo Generated/AsmAsciiGen.vo Ascii/AsmTotal.vo Generated/AsciiGen.vo Ascii/Spec.vo Ascii/Proofs.vo Json/Ext.vo Generated/JsonParseGen.vo Json/Grammar.vo Json/Spec.vo
 Json/ValidProofs.vio: Json/ValidProofs.v Base/GoInt.vio Base/Lanes.vio Base/LanesProofs.vio Generated/AsmAsciiGen.vio Ascii/AsmTotal.vio Generated/AsciiGen.vio Ascii/Spec.vio Ascii/Proofs.vio Json/Ext.vio Generated/JsonParseGen.vio Json/Grammar.vio Json/Spec.vio
 Json/ValidProofs.vos Json/ValidProofs.vok Json/ValidProofs.required_vos: Json/ValidProofs.v Base/GoInt.vos Base/Lanes.vos Base/LanesProofs.vos Generated/AsmAsciiGen.vos Ascii/AsmTotal.vos Generated/AsciiGen.vos Ascii/Spec.vos Ascii/Proofs.vos Json/Ext.vos Generated/JsonParseGen.vos Json/Grammar.vos Json/Spec.vos
-Properties/C05.vo Properties/C05.glob Properties/C05.v.beautified Properties/C05.required_vo: Properties/C05.v Base/GoInt.vo Json/Ext.vo Generated/JsonParseGen.vo Json/Grammar.vo Json/Spec.vo
-Properties/C05.vio: Properties/C05.v Base/GoInt.vio Json/Ext.vio Generated/JsonParseGen.vio Json/Grammar.vio Json/Spec.vio
-Properties/C05.vos Properties/C05.vok Properties/C05.required_vos: Properties/C05.v Base/GoInt.vos Json/Ext.vos Generated/JsonParseGen.vos Json/Grammar.vos Json/Spec.vos
+Properties/C05.vo Properties/C05.glob Properties/C05.v.beautified Properties/C05.required_vo: Properties/C05.v Base/GoInt.vo Json/Ext.vo Generated/JsonParseGen.vo Json/Grammar.vo Json/Spec.vo Json/ValidProofs.vo
+Properties/C05.vio: Properties/C05.v Base/GoInt.vio Json/Ext.vio Generated/JsonParseGen.vio Json/Grammar.vio Json/Spec.vio Json/ValidProofs.vio
+Properties/C05.vos Properties/C05.vok Properties/C05.required_vos: Properties/C05.v Base/GoInt.vos Json/Ext.vos Generated/JsonParseGen.vos Json/Grammar.vos Json/Spec.vos Json/ValidProofs.vos
 Properties/C16.vo Properties/C16.glob Properties/C16.v.beautified Properties/C16.required_vo: Properties/C16.v Base/GoInt.vo Proto/Ext.vo Generated/ProtoGen.vo Proto/Model.vo Proto/PrimSpec.vo Proto/Spec.vo Proto/EncProofs.vo
 Properties/C16.vio: Properties/C16.v Base/GoInt.vio Proto/Ext.vio Generated/ProtoGen.vio Proto/Model.vio Proto/PrimSpec.vio Proto/Spec.vio Proto/EncProofs.vio
 Properties/C16.vos Properties/C16.vok Properties/C16.required_vos: Properties/C16.v Base/GoInt.vos Proto/Ext.vos Generated/ProtoGen.vos Proto/Model.vos Proto/PrimSpec.vos Proto/Spec.vos Proto/EncProofs.vos
